@@ -178,9 +178,12 @@ impl BlockRangeExt for BlockRange {
         let start = *self.start();
         let end = *self.end();
 
-        let Some(adjusted_end) = start.saturating_add(limit).checked_sub(1) else {
+        // Subtract before adding: `start + limit` may saturate at `u64::MAX`, which would
+        // cut the highest height off (or yield an empty range when `start == u64::MAX`).
+        let Some(limit_minus_one) = limit.checked_sub(1) else {
             return RangeInclusive::new(1, 0);
         };
+        let adjusted_end = start.saturating_add(limit_minus_one);
 
         start..=u64::min(end, adjusted_end)
     }
